@@ -43,17 +43,24 @@ def generate(seed, tier="quick"):
     shape = gen_any_shape(r, max_cells=3, max_branches=3, max_ncomp=3)
     o = stream(seed, "ops")
     N = o.randint(3, 16)
-    cfg = {"L": N, "channels": o.sample(mech.CHANNELS, o.randint(1, 4)), "synapses": o.sample(mech.SYNAPSES, o.randint(1, 2)), "max_edges": 5}
+    cfg = {"L": N, "channels": o.sample(mech.CHANNELS, o.randint(1, 4)), "synapses": o.sample(mech.SYNAPSES, o.randint(1, 3)), "max_edges": 6}
     dw = DryWorld(shape)
     ops = []
     for op in init_value_ops(o, dw.ref):
         dw.dry_apply(op)
         ops.append(op)
-    sw = {"set": 2, "insert": 3, "connect": 2, "record": 4, "group": 1, "stimulate": 2, "clamp": 1, "make_trainable": 2, "init_states": 1}
+    sw = {"set": 2, "insert": 3, "connect": 3, "record": 4, "group": 1, "stimulate": 2, "clamp": 1, "make_trainable": 2, "init_states": 1}
     for _ in range(o.randint(4, 14)):
         op = gen_op(o, dw, sw, cfg)
         if op is not None and dw.dry_apply(op) == "accept":
             ops.append(op)
+    if shape["kind"] == "network" and o.random() < 0.6:
+        # wiring burst: several synapses of 2-3 interleaved types (rank within type != global edge index)
+        types_ = o.sample(mech.SYNAPSES, o.randint(2, 3))
+        for _ in range(o.randint(3, 6)):
+            op = {"op": "connect", "pre": o.randrange(1 << 16), "post": o.randrange(1 << 16), "cls": o.choice(types_), "name": None}
+            if dw.dry_apply(op) == "accept":
+                ops.append(op)
     if not dw.ref.recordings:
         op = {"op": "record", "view": [], "state": "v"}
         dw.dry_apply(op)
@@ -78,7 +85,7 @@ def generate(seed, tier="quick"):
             calls.append({"kind": "reject", "why": o.choice(["ckpt_too_small", "no_tmax", "clamp_short"])})
     return {"prop": PROPERTY, "shape": shape, "ops": ops, "N": N, "steps": steps, "dt": o.choice(DTS),
             "solver": o.choice(["bwd_euler", "bwd_euler", "crank_nicolson"]), "vsolver": o.choice(["jaxley.stone", "jaxley.thomas", "jax.sparse"]),
-            "use_params": o.random() < 0.6, "calls": calls}
+            "use_params": o.random() < 0.6, "calls": calls, "use_param_state": o.choice([0, 0, o.randrange(1, 1 << 20), o.randrange(1, 1 << 20)])}
 
 
 def execute(program):
@@ -105,6 +112,27 @@ def execute(program):
     use_params = program["use_params"] and bool(ref.trainables)
     params = m.get_parameters() if use_params else None
     base = dict(steps=program["steps"], dt=dt, solver=program["solver"], vsolver=program["vsolver"])
+    if program.get("use_param_state"):
+        # one param_state object, built once with data_set, is handed to *every* invocation of the sequence
+        # (data_set is functional: integrate must neither depend on nor modify what earlier invocations did with it)
+        k_ = program["use_param_state"]
+        with quiet():
+            if ref.edges and k_ % 3 != 0:
+                iw_ = [sum(1 for x in ref.edges[:e] if x["type"] == ed["type"]) for e, ed in enumerate(ref.edges)]  # index within type
+                # prefer synapses for which translating the index twice lands elsewhere (interleaved types)
+                cand = ([e for e in range(len(ref.edges)) if iw_[iw_[e]] != iw_[e]]
+                        or [e for e in range(len(ref.edges)) if iw_[e] != e] or list(range(len(ref.edges))))
+                e_ = cand[k_ % len(cand)]
+                syn_ = [s_ for s_ in ref.syns if s_["name"] == ref.edges[e_]["type"]][0]
+                key_ = sorted(syn_["params"])[k_ % len(syn_["params"])]
+                lo, hi = mech.value_range(key_, syn_["params"][key_], False)
+                base["param_state"] = m.select(edges=[e_]).data_set(key_, uval(k_, key_, 0, lo, hi), None)
+            else:
+                t_ = k_ % ref.n
+                key_ = ["radius", "length", "capacitance", "axial_resistivity"][k_ % 4]
+                lo, hi = mech.value_range(key_)
+                base["param_state"] = m.select(nodes=[t_]).data_set(key_, uval(k_, key_, 0, lo, hi), None)
+        w.bump("probe_shared_param_state")
     mask = np.ones(len(ref.recordings), dtype=bool)
     mask[nan_rows(ref)] = False
 
@@ -242,6 +270,9 @@ def do_vmap(w, m, c, base, params, ref_out, mask, steps, nidx, call):
         over = "data_set"
     t = c["target"] % ref.n
     p0 = params if params is not None else []
+    shared = base.get("param_state")
+    if shared is not None and over != "data_set":
+        kw["param_state"] = shared
     if over == "params":
         batched = [{k: jnp.stack([v * f for f in factors]) for k, v in d.items()} for d in p0]
         f = lambda p: jx.integrate(m, p, **kw)  # noqa: E731
@@ -251,7 +282,7 @@ def do_vmap(w, m, c, base, params, ref_out, mask, steps, nidx, call):
         key = c["key"]
         val0 = float(m.nodes.loc[t, key])
         view = m.select(nodes=[t])
-        f = lambda x: jx.integrate(m, p0, param_state=view.data_set(key, x, None), **kw)  # noqa: E731
+        f = lambda x: jx.integrate(m, p0, param_state=view.data_set(key, x, list(shared) if shared is not None else None), **kw)  # noqa: E731
         arg = val0 * factors
         seq = [val0 * fac for fac in factors]
     else:
@@ -281,7 +312,7 @@ def do_vmap(w, m, c, base, params, ref_out, mask, steps, nidx, call):
 
 
 def simplify(program):
-    for field, simple in (("solver", "bwd_euler"), ("dt", 0.025), ("use_params", False), ("vsolver", "jax.sparse")):
+    for field, simple in (("solver", "bwd_euler"), ("dt", 0.025), ("use_params", False), ("vsolver", "jax.sparse"), ("use_param_state", 0)):
         if program.get(field) != simple:
             q = copy.deepcopy(program)
             q[field] = simple
